@@ -106,6 +106,10 @@ mut("C18-revert-stdin-name-fix", "fname.c",
     "	return strEqual(fnameName(fn), \"-\") &&\n	       (!fnameType(fn) || !fnameType(fn)[0]);",
     "	return strEqual(fnameName(fn), \"-\");", count=1)
 
+mut("C13-revert-stray-iterate-fix", "ti_bup.c",
+    "	if (tloopBreakCount == -1) {\n		/* Not inside a loop: reject, as for a stray `break'. */\n		abState(absyn) = AB_State_Error;\n		abTPoss(absyn) = tpossEmpty();\n	}\n	else\n		abTPoss(absyn) = tpossSingleton(tfExit);",
+    "	abTPoss(absyn) = tpossSingleton(tfExit);")
+
 
 def main():
     out = os.path.join(os.path.dirname(os.path.abspath(__file__)), "mutants")
